@@ -6,13 +6,14 @@ Strict == IOEnv.VERIF_STRICT = "1"
 VARIABLES l
 tvars == <<vars, l>>
 E == TraceLog[l]
-TraceInit == l = 1 /\ batch = <<[row |-> "checkin", pclass |-> "low"]>> /\ key = "zero" /\ params = <<>> /\ last = [op |-> "none"] /\ hist = <<>>
+TraceInit == l = 1 /\ batch = <<[row |-> "checkin", pclass |-> "low"]>> /\ looks = 0 /\ key = "zero" /\ params = <<>> /\ last = [op |-> "none"] /\ hist = <<>>
 IsEvent(e) == l <= Len(TraceLog) /\ E.ev = e /\ l' = l + 1
-Reset == IsEvent("Reset") /\ batch' = E.batch /\ key' = E.key /\ params' = <<>> /\ last' = [op |-> "none"] /\ hist' = <<>>
+Reset == IsEvent("Reset") /\ batch' = E.batch /\ looks' = E.looks /\ key' = E.key /\ params' = <<>> /\ last' = [op |-> "none"] /\ hist' = <<>>
 Logged == [op |-> "Deliver", tasks |-> E.res.tasks, clear |-> E.res.clear]
 SDeliver == IsEvent("Deliver") /\ Deliver(E.params) /\ last' = Logged
-MDeliver == IsEvent("Deliver") /\ params' = E.params /\ last' = Logged /\ hist' = <<[op |-> "Deliver"]>> /\ UNCHANGED <<batch, key>>
-TraceNext == Reset \/ (Strict /\ SDeliver) \/ (~Strict /\ MDeliver)
+MDeliver == IsEvent("Deliver") /\ params' = E.params /\ last' = Logged /\ hist' = Append(hist, [op |-> "Deliver"]) /\ UNCHANGED <<batch, looks, key>>
+TList == IsEvent("List") /\ List
+TraceNext == Reset \/ TList \/ (Strict /\ SDeliver) \/ (~Strict /\ MDeliver)
 TraceSpec == TraceInit /\ [][TraceNext]_tvars
 TraceAccepted == TLCGet("stats").diameter - 1 = Len(TraceLog)
 =============================================================================
